@@ -1,5 +1,311 @@
 /-
-C14 — property theorems (stub: no theorem stated yet, so no obligation is counted).
+C14 — the caches of bgzf/cache honour the Cache contract, sequentially and concurrently.
+PROPERTY THEOREMS ONLY (models: Hts.Model.Cache; specifications: Hts.Spec.CacheContract; lemmas: Hts.Lemmas.Cache*).
+
+Every statement quantifies over ALL capacities ≥ 1, ALL block heaps and ALL operation histories (no bound on
+length, number of blocks or number of threads).  `LCache` is LRU (`Kind.lru`) and FIFO (`Kind.fifo`),
+`RCache` is Random (its victims are the ones the implementation chose, validated), a StatsRecorder is
+`recorderOps`.  The model mirrors the code with `drop` repaired (fixes/C14-1-…: on the unrepaired tree
+`Drop`/`Resize` never return) and with `FIFO.Get` as coded (a used block stays indexed): that defect is a
+recorded finding, visible here as `fifo_get_returns_requested_base_full` / `_partial` / `_witness`.
 -/
+import Hts.Lemmas.CacheHist
+import Hts.Lemmas.CachePolicy
+import Hts.Lemmas.CacheClient
+import Hts.Lemmas.CacheLinInst
 namespace Hts.Props.C14
+open Hts.Model.Cache Hts.Spec.CacheContract Hts.Spec.Lin
+
+/-! ### never more blocks than the capacity (all histories, all capacities ≥ 1) -/
+
+/-- LRU and FIFO: after every history of Put/Get/Peek/Drop/Resize(≥1)/Free from `New(n)`, `n ≥ 1`, with
+arbitrary changes to the blocks between calls: `Len ≤ Cap`, `Cap ≥ 1`, one table entry per key -/
+theorem len_le_cap_lru_fifo (kind : Kind) (n : Int) (hn : 1 ≤ n) (hist : List (Heap × LOp))
+    (ok : ∀ x ∈ hist, x.2.ok) :
+    ((LCache.new n).run kind hist).len ≤ ((LCache.new n).run kind hist).cap ∧
+    1 ≤ ((LCache.new n).run kind hist).cap ∧ KeysNodup ((LCache.new n).run kind hist).items := by
+  have w := LCache.run_wf (kind := kind) (LCache.wf_new hn) hist ok
+  exact ⟨w.len_le, w.cap_pos, w.nodup⟩
+
+/-- Random: the same, for every sequence of victim choices the code can make -/
+theorem len_le_cap_random (n : Int) (hn : 1 ≤ n) (hist : List (Heap × RCache.ROp))
+    (ok : ∀ x ∈ hist, x.2.ok) (c : RCache) (hr : (RCache.new n).run hist = some c) :
+    c.len ≤ c.cap ∧ 1 ≤ c.cap ∧ KeysNodup c.items := by
+  have w := RCache.run_wf (RCache.wf_new hn) hist ok hr
+  exact ⟨w.len_le, w.cap_pos, w.nodup⟩
+
+/-- with capacity ≥ 1 `Put` never dereferences the list sentinel (the model's `panic` outcome) -/
+theorem put_never_panics (h : Heap) (c : LCache) (w : c.WF) (id : Nat) : (c.put h id).2 ≠ .panic :=
+  LCache.put_no_panic w id
+
+/-! ### a full cache refuses unused blocks -/
+
+theorem full_refuses_unused_lru_fifo (h : Heap) (c : LCache) (id : Nat)
+    (hfull : c.len = c.cap) (hu : (h id).used = false) : c.put h id = (c, .refused) :=
+  LCache.full_refuses_unused h c id hfull hu
+
+theorem full_refuses_unused_random (h : Heap) (c : RCache) (id : Nat) (hint : Option Nat)
+    (hfull : c.len = c.cap) (hu : (h id).used = false) : c.put h id hint = some (c, .refused) :=
+  RCache.full_refuses_unused h c id hint hfull hu
+
+/-! ### eviction follows the stated policy -/
+
+/-- LRU/FIFO `Put` on the linked list is `Put` of the stated policy (`PolicyQ`: two arrival-ordered queues,
+victim = newest unused block if any, else oldest used block): same answer, corresponding successor -/
+theorem lru_fifo_put_follows_policy (h : Heap) (q : PolicyQ) (id : Nat) :
+    q.abs.put h id = ((q.put h id).1.abs, (q.put h id).2) :=
+  PolicyQ.abs_put h q id
+
+/-- … and so does every history: the list the code maintains is the image of the policy's queues after any
+sequence of Put/Get/Peek/Drop/Resize/Free (`Drop(n)` = evict n times, `Resize` = evict down to n) -/
+theorem lru_fifo_history_follows_policy (kind : Kind) (n : Int) (hist : List (Heap × LOp)) :
+    (LCache.new n).run kind hist = ((PolicyQ.new n).run kind hist).abs := by
+  rw [PolicyQ.abs_run, PolicyQ.abs_new]
+
+/-- the victim the policy names: newest unused, else oldest used -/
+theorem policy_victim (q : PolicyQ) (v : Entry) (q' : PolicyQ) (he : q.evict = some (v, q')) :
+    (q.unused ≠ [] → q.unused.getLast? = some v) ∧ (q.unused = [] → q.used.head? = some v) := by
+  unfold PolicyQ.evict at he
+  constructor
+  · intro hne
+    cases hl : q.unused.getLast? with
+    | none => simp at hl; exact absurd hl hne
+    | some x => simp [hl] at he; rw [he.1]
+  · intro hnil
+    simp [hnil] at he
+    cases hu : q.used with
+    | nil => simp [hu] at he
+    | cons a t => simp [hu] at he; simp [he.1]
+
+/-- Random evicts only from a full cache, only a block it holds, and a used block only if no unused one is held -/
+theorem random_evicts_unused_first (h : Heap) (c c' : RCache) (id v : Nat) (hint : Option Nat)
+    (hp : c.put h id hint = some (c', .kept (some v))) :
+    (∃ e ∈ c.items, e.id = v) ∧ (c.items.length : Int) = c.cap ∧
+    ((∃ e ∈ c.items, (h e.id).used = false) → (h v).used = false) :=
+  RCache.put_evicts_unused_first hp
+
+/-! ### Peek / Len / Cap agree with Get -/
+
+/-- `Peek(k)` is true exactly when `Get(k)` returns a block, and then reports that block's `NextBase()`;
+`Len` is the number of distinct keys for which that is the case -/
+theorem peek_len_consistent_lru_fifo (kind : Kind) (h : Heap) (c : LCache) (w : c.WF) (k : Int) :
+    ((c.peek h k).1 = true ↔ ∃ id, (c.get kind h k).2 = some id) ∧
+    (∀ id, (c.get kind h k).2 = some id → (c.peek h k) = (true, (h id).next)) ∧
+    ((c.peek h k).1 = true ↔ k ∈ c.items.map (·.key)) ∧
+    c.len = (c.items.map (·.key)).length ∧ (c.items.map (·.key)).Nodup := by
+  refine ⟨?_, ?_, ?_, by simp [LCache.len], ?_⟩
+  · unfold LCache.peek LCache.get
+    cases hl : lookup c.items k with
+    | none => simp
+    | some e => simp only; split <;> simp
+  · intro id
+    unfold LCache.peek LCache.get
+    cases hl : lookup c.items k with
+    | none => simp
+    | some e => simp only; split <;> (simp; intro h1; rw [h1])
+  · unfold LCache.peek
+    cases hl : lookup c.items k with
+    | none =>
+      have := lookup_none hl
+      simp only [List.mem_map, Bool.false_eq_true, false_iff, not_exists, not_and]
+      exact fun e he => this e he
+    | some e =>
+      obtain ⟨hm, hk⟩ := lookup_some hl
+      simp only [List.mem_map, true_iff]
+      exact ⟨e, hm, hk⟩
+  · have := w.nodup
+    unfold KeysNodup at this
+    rw [List.Nodup, List.pairwise_map]
+    exact this
+
+theorem peek_len_consistent_random (h : Heap) (c : RCache) (w : c.WF) (k : Int) :
+    ((c.peek h k).1 = true ↔ ∃ id, (c.get k).2 = some id) ∧
+    (∀ id, (c.get k).2 = some id → (c.peek h k) = (true, (h id).next)) ∧
+    c.len = (c.items.map (·.key)).length ∧ (c.items.map (·.key)).Nodup := by
+  refine ⟨?_, ?_, by simp [RCache.len], ?_⟩
+  · unfold RCache.peek RCache.get
+    cases hl : lookup c.items k <;> simp
+  · intro id
+    unfold RCache.peek RCache.get
+    cases hl : lookup c.items k with
+    | none => simp
+    | some e => simp; intro h1; rw [h1]
+  · have := w.nodup
+    unfold KeysNodup at this
+    rw [List.Nodup, List.pairwise_map]
+    exact this
+
+/-! ### reader-style use: Get and Peek answer with the requested base -/
+
+/-- **for every cache satisfying the contract**, in every state reachable by reader-style use (owned blocks
+may be overwritten; blocks are owned when allocated, handed over by `Get`, refused or evicted by `Put`):
+`Get(k)` returns a block whose base is `k`, `Peek(k)` answers for a held block whose base is `k` -/
+theorem get_returns_requested_base {σ : Type} (o : CacheOps σ) (wf : σ → Prop) (c : Contract o wf)
+    (init : σ) (h0 : Heap) (hwf : wf init) (hempty : o.held init = [])
+    (s : Client σ) (r : Reach o wf init h0 s) (k : Int) :
+    (∀ c' id, o.get s.heap s.cache k = (c', some id) → (s.heap id).base = k) ∧
+    (∀ nx, o.peek s.heap s.cache k = (true, nx) →
+      ∃ id, (⟨k, id⟩ : Entry) ∈ o.held s.cache ∧ (s.heap id).base = k ∧ nx = (s.heap id).next) :=
+  coherent_get_base c (reach_coherent c hwf hempty r) k
+
+/-- the contract holds for LRU, Random and a StatsRecorder around either (or around any conforming cache) -/
+theorem lru_satisfies_contract : Contract lruOps LCache.WF := lru_contract
+theorem random_satisfies_contract : Contract randomOps RCache.WF := random_contract
+theorem recorder_satisfies_contract {σ : Type} (o : CacheOps σ) (wf : σ → Prop) (c : Contract o wf) :
+    Contract (recorderOps o) (fun s => wf s.1) := recorder_contract c
+
+theorem lru_get_returns_requested_base (n : Int) (hn : 1 ≤ n) (h0 : Heap) (s : Client LCache)
+    (r : Reach lruOps LCache.WF (LCache.new n) h0 s) (k : Int) (c' : LCache) (id : Nat)
+    (hg : LCache.get .lru s.heap s.cache k = (c', some id)) : (s.heap id).base = k :=
+  (get_returns_requested_base lruOps LCache.WF lru_contract _ h0 (LCache.wf_new hn) rfl s r k).1 c' id hg
+
+theorem random_get_returns_requested_base (n : Int) (hn : 1 ≤ n) (h0 : Heap) (s : Client RCache)
+    (r : Reach randomOps RCache.WF (RCache.new n) h0 s) (k : Int) (c' : RCache) (id : Nat)
+    (hg : s.cache.get k = (c', some id)) : (s.heap id).base = k :=
+  (get_returns_requested_base randomOps RCache.WF random_contract _ h0 (RCache.wf_new hn) rfl s r k).1 c' id hg
+
+theorem recorder_lru_get_returns_requested_base (n : Int) (hn : 1 ≤ n) (h0 : Heap) (s : Client (LCache × Stats))
+    (r : Reach (recorderOps lruOps) (fun s => LCache.WF s.1) (LCache.new n, {}) h0 s) (k : Int)
+    (c' : LCache × Stats) (id : Nat)
+    (hg : (recorderOps lruOps).get s.heap s.cache k = (c', some id)) : (s.heap id).base = k :=
+  (get_returns_requested_base (recorderOps lruOps) _ (recorder_contract lru_contract) _ h0
+    (LCache.wf_new hn) rfl s r k).1 c' id hg
+
+/-- FIFO, full statement (FALSE on the current code: recorded finding) -/
+def fifo_get_returns_requested_base_full : Prop :=
+  ∀ (n : Int), 1 ≤ n → ∀ (h0 : Heap) (s : Client LCache),
+    Reach fifoOps LCache.WF (LCache.new n) h0 s →
+    ∀ (k : Int) (c' : LCache) (id : Nat), LCache.get .fifo s.heap s.cache k = (c', some id) → (s.heap id).base = k
+
+/-- FIFO with the excluding hypothesis explicit: as long as no `Get` hits a block that is `Used()` -/
+theorem fifo_get_returns_requested_base_partial (n : Int) (hn : 1 ≤ n) (h0 : Heap) (s : Client LCache)
+    (r : ReachP fifoOps LCache.WF FifoSafe (LCache.new n) h0 s) (k : Int) (c' : LCache) (id : Nat)
+    (hs : FifoSafe (.get k) s)
+    (hg : LCache.get .fifo s.heap s.cache k = (c', some id)) : (s.heap id).base = k := by
+  have inv := (coherent_fifo_iff_lru s).1 (fifo_reach_coherent_partial hn r)
+  have e : LCache.get .fifo s.heap s.cache k = LCache.get .lru s.heap s.cache k := fifo_get_eq_lru hs
+  rw [e] at hg
+  exact (coherent_get_base lru_contract inv k).1 c' id hg
+
+/-- the counterexample: alloc b (base 0, used); Put b; Get 0 (= b, still indexed); Put b (refused);
+the owner recycles b for base 100; Get 0 returns b, whose base is 100 -/
+theorem fifo_get_returns_requested_base_witness : ¬ fifo_get_returns_requested_base_full := by
+  intro hfull
+  obtain ⟨c', id, hg, hb⟩ := fifo_witness_wrong_base
+  exact hb (hfull 1 (by decide) _ fifoS4 fifo_witness_reach 0 c' id hg)
+
+/-- FIFO does not satisfy the contract (`Get` must remove) -/
+theorem fifo_violates_contract : ¬ Contract fifoOps LCache.WF := fifo_not_contract
+
+/-! ### Resize, Drop, Free leave the stated capacity and free slots -/
+
+theorem drop_post_lru_fifo (c : LCache) (n : Int) :
+    (c.drop n).cap = c.cap ∧ (c.drop n).len = c.len - min (max n 0) c.len :=
+  LCache.drop_post c n
+
+theorem resize_post_lru_fifo (c : LCache) (n : Int) (hn : 0 ≤ n) :
+    (c.resize n).cap = n ∧ (c.resize n).len = min c.len n :=
+  LCache.resize_post c n hn
+
+theorem free_post_lru_fifo (c : LCache) (w : c.WF) (n : Int) :
+    (c.free n).1.cap = c.cap ∧
+    ((c.free n).2 = true ↔ n ≤ c.cap) ∧
+    ((c.free n).2 = true → n ≤ (c.free n).1.cap - (c.free n).1.len) ∧
+    (c.free n).1.len = c.len - min (max (n - (c.cap - c.len)) 0) c.len :=
+  LCache.free_post w n
+
+/-- Random `Drop`: capacity unchanged, at least `min n len` blocks leave, only chosen victims leave, and
+either only unused blocks left or no unused block stayed -/
+theorem drop_post_random (h : Heap) (c c' : RCache) (n : Int) (vs : List Nat)
+    (hd : c.drop h n vs = some c') :
+    c'.cap = c.cap ∧ c'.len ≤ c.len - min (max n 0) c.len ∧
+    (∀ e ∈ c.items, e ∉ c'.items → e.id ∈ vs) ∧
+    ((∀ v ∈ vs, (h v).used = false) ∨ (∀ e ∈ c'.items, (h e.id).used = true)) := by
+  simp only [RCache.drop, Option.map_eq_some_iff] at hd
+  obtain ⟨it, h1, h2⟩ := hd
+  subst h2
+  obtain ⟨_, hl, hv, hp⟩ := RCache.dropItems_facts h1
+  exact ⟨rfl, hl, hv, hp⟩
+
+theorem resize_post_random (h : Heap) (c c' : RCache) (n : Int) (vs : List Nat) (hn : 0 ≤ n)
+    (hd : c.resize h n vs = some c') : c'.cap = n ∧ c'.len ≤ min c.len n := by
+  unfold RCache.resize at hd
+  split at hd
+  · simp only [Option.map_eq_some_iff] at hd
+    obtain ⟨it, h1, h2⟩ := hd
+    subst h2
+    obtain ⟨_, hl, _⟩ := RCache.dropItems_facts h1
+    refine ⟨rfl, ?_⟩
+    simp only [RCache.len]
+    omega
+  · split at hd
+    · cases hd
+      exact ⟨rfl, by simp only [RCache.len]; omega⟩
+    · cases hd
+
+/-! ### concurrent use is linearizable -/
+
+/-- generic: lock; body in any number of small steps; unlock  ⇒  every history (any number of threads, any
+schedule) is linearizable w.r.t. the sequential specification -/
+theorem lock_linearizable (O : Obj) (L : Laws O) (s0 : O.σ) (g : G O) (w : List (Ev O))
+    (r : Hts.Spec.Lin.Reach O s0 g w) : Linearizable O s0 (visible O w) :=
+  Hts.Spec.Lin.lock_linearizable O L s0 r
+
+theorem lru_fifo_linearizable (kind : Kind) (h : Heap) (n : Int) (g : G (lObj kind h))
+    (w : List (Ev (lObj kind h))) (r : Hts.Spec.Lin.Reach (lObj kind h) (LCache.new n) g w) :
+    Linearizable (lObj kind h) (LCache.new n) (visible (lObj kind h) w) :=
+  lcache_linearizable kind h n r
+
+theorem random_linearizable (h : Heap) (n : Int) (g : G (rObj h)) (w : List (Ev (rObj h)))
+    (r : Hts.Spec.Lin.Reach (rObj h) (RCache.new n) g w) :
+    Linearizable (rObj h) (RCache.new n) (visible (rObj h) w) :=
+  rcache_linearizable h n r
+
+/-- StatsRecorder `Get`/`Put`/`Stats`/`Reset` with their bodies in small steps (counter, inner call, counter) -/
+theorem recorder_linearizable {σ : Type} (o : CacheOps σ) (h : Heap) (c0 : σ) (g : G (recObj o h))
+    (w : List (Ev (recObj o h))) (r : Hts.Spec.Lin.Reach (recObj o h) (c0, {}) g w) :
+    Linearizable (recObj o h) (c0, {}) (visible (recObj o h) w) :=
+  Hts.Spec.Lin.recorder_linearizable o h c0 r
+
+/-! ### non-vacuity -/
+
+/-- heap used in the examples: block i has base 100·i, is used, next base 100·(i+1) -/
+def exHeap : Heap := fun i => ⟨100 * i, true, 100 * (i + 1)⟩
+
+/-- a history satisfying the hypotheses of `len_le_cap_lru_fifo` that fills a cache of capacity 2, evicts, shrinks -/
+example : ((LCache.new 2).run .lru
+    [(exHeap, .put 0), (exHeap, .put 1), (exHeap, .put 2), (exHeap, .get 100), (exHeap, .resize 1)]).items
+    = [⟨200, 2⟩] := by decide
+
+example : ∀ x ∈ [(exHeap, LOp.put 0), (exHeap, .put 1), (exHeap, .put 2), (exHeap, .get 100), (exHeap, .resize 1)],
+    x.2.ok := by
+  intro x hx
+  simp at hx
+  rcases hx with h | h | h | h | h <;> subst h <;> simp [LOp.ok]
+
+/-- the third Put evicted block 0, the oldest -/
+example : ((((LCache.new 2).put exHeap 0).1.put exHeap 1).1.put exHeap 2).2 = .kept (some 0) := by decide
+
+/-- a reachable reader-style state with a non-empty LRU (hypotheses of `get_returns_requested_base`) -/
+example : ∃ s, Reach lruOps LCache.WF (LCache.new 1) exHeap s ∧ s.cache.items = [⟨0, 0⟩] := by
+  refine ⟨⟨⟨1, [⟨0, 0⟩]⟩, setBlk exHeap 0 ⟨0, true, 100⟩, [], 1⟩, ?_, rfl⟩
+  have r1 := Reach.step (Reach.init (o := lruOps) (wf := LCache.WF) (init := LCache.new 1) (h0 := exHeap))
+    (Step.alloc _ ⟨0, true, 100⟩)
+  have st := Step.putKept (o := lruOps) (wf := LCache.WF) _ 0 none ⟨1, [⟨0, 0⟩]⟩ none
+    (by simp) (by decide) |> Reach.step r1
+  simpa using st
+
+/-- a run of the lock LTS in which thread 1 invokes while thread 0 is inside its critical section -/
+example : ∃ g w, Hts.Spec.Lin.Reach (lObj .lru exHeap) (LCache.new 1) g w ∧ w.length = 3 := by
+  have r0 : Hts.Spec.Lin.Reach (lObj .lru exHeap) (LCache.new 1) ⟨LCache.new 1, fun _ => .idle⟩ [] :=
+    Hts.Spec.Lin.Reach.init
+  have r1 := Hts.Spec.Lin.Reach.step r0 (Hts.Spec.Lin.Step.invoke _ 0 (Call.put 0) rfl)
+  have r2 := Hts.Spec.Lin.Reach.step r1 (Hts.Spec.Lin.Step.acquireW _ 0 (Call.put 0) (by simp) rfl
+    (by intro u op' l; by_cases hu : u = 0 <;> simp [upd, hu]))
+  have r3 := Hts.Spec.Lin.Reach.step r2 (Hts.Spec.Lin.Step.invoke _ 1 (Call.get 0) (by simp [upd]))
+  have r4 := Hts.Spec.Lin.Reach.step r3 (Hts.Spec.Lin.Step.finish _ 0 (Call.put 0) () (CRet.put (.kept none))
+    (⟨1, [⟨0, 0⟩]⟩ : LCache) (by simp [upd]; rfl)
+    (by show LCache.call .lru exHeap (LCache.new 1) (Call.put 0) = _; decide))
+  exact ⟨_, _, r4, rfl⟩
+
 end Hts.Props.C14
